@@ -6,6 +6,7 @@ import (
 	"fmt"
 	"strings"
 	"testing"
+	"time"
 
 	"verif/ref/b2f"
 	"verif/sim/core"
@@ -16,6 +17,14 @@ type C16Plan struct {
 	PeerPlan
 	// PasswordsB: address -> password bytes (any bytes without CR/LF).
 	PasswordsB map[string][]byte `json:"passwords_b,omitempty"`
+	// Others: further stations of the same process that log in to their own
+	// remotes at the same time, each over its own link (one level only).
+	Others []C16Plan `json:"others,omitempty"`
+	// StartUs: when each further session starts, relative to the first.
+	StartUs []int `json:"start_us,omitempty"`
+	// Yield: pauses (microseconds, cyclic) at the statement boundaries of the
+	// instrumented library code, see core.Sim.EnableYields.
+	Yield []int `json:"yield,omitempty"`
 }
 
 func genPassword(r *core.Rand) []byte {
@@ -77,7 +86,7 @@ func genChallenge(r *core.Rand) string {
 	}
 }
 
-func genC16(tier string, r *core.Rand) C16Plan {
+func genC16one(tier string, r *core.Rand) C16Plan {
 	pp := genC05(tier, r)
 	pp.LibMaster = false
 	pp.Peer.Prompt = core.Choice(r, []string{"CMS>", ">", "Halifax CMS >"})
@@ -123,13 +132,46 @@ func genC16(tier string, r *core.Rand) C16Plan {
 	return p
 }
 
-func execC16(t *testing.T, prop string, raw json.RawMessage, trace bool) core.Outcome {
-	var p C16Plan
-	var out core.Outcome
-	if err := json.Unmarshal(raw, &p); err != nil {
-		out.Violate(prop, "harness", "bad-plan", fmt.Sprint("unusable plan: ", err))
-		return out
+// GenYieldTape draws a pause tape for core.Sim.EnableYields: a prime length so
+// that it does not fall into step with loops, a few percent of the points pause.
+func GenYieldTape(r *core.Rand) []int {
+	n := core.Choice(r, []int{53, 97, 193, 389})
+	dens := core.Choice(r, []float64{0.01, 0.03, 0.08, 0.2})
+	scale := core.Choice(r, []int{5, 200, 5000, 60000})
+	t := make([]int, n)
+	for i := range t {
+		if r.Chance(dens) {
+			t[i] = 1 + r.Intn(scale)
+		}
 	}
+	t[r.Intn(n)] = 1 + r.Intn(scale) // never empty
+	return t
+}
+
+// genC16 adds, for a quarter of the plans, one or two more stations of the
+// same process that log in at the same time, and pauses inside the library.
+func genC16(tier string, r *core.Rand) C16Plan {
+	p := genC16one(tier, r)
+	if r.Chance(0.25) {
+		for i, n := 0, r.Range(1, 2); i < n; i++ {
+			o := genC16one(tier, r)
+			o.Lib.Msgs, o.PeerMsgs = nil, nil // the logins are what matters
+			p.Others = append(p.Others, o)
+			p.StartUs = append(p.StartUs, core.Choice(r, []int{0, 0, 1, 50, 2000, 100000})*r.Range(0, 3))
+		}
+		if r.Chance(0.5) {
+			// same link timing for everybody: the logins are computed at about the same time
+			for i := range p.Others {
+				p.Others[i].Link = p.Link
+			}
+		}
+		p.Yield = GenYieldTape(r)
+	}
+	return p
+}
+
+// prepC16 puts a plan into the domain the check is about.
+func prepC16(p *C16Plan) {
 	p.LibMaster = false
 	p.Peer.Byzantine, p.Peer.Mut = false, nil
 	if p.Peer.Challenge == "" {
@@ -143,72 +185,67 @@ func execC16(t *testing.T, prop string, raw json.RawMessage, trace bool) core.Ou
 	for _, a := range core.SortedKeys(p.PasswordsB) {
 		p.Passwords[a] = strings.NewReplacer("\r", "", "\n", "").Replace(string(p.PasswordsB[a]))
 	}
-	primary := strings.ToUpper(p.Lib.Call)
-	errFor := map[string]bool{}
-	for _, a := range p.ErrFor {
-		errFor[a] = true
+}
+
+func execC16(t *testing.T, prop string, raw json.RawMessage, trace bool) core.Outcome {
+	var p C16Plan
+	var out core.Outcome
+	if err := json.Unmarshal(raw, &p); err != nil {
+		out.Violate(prop, "harness", "bad-plan", fmt.Sprint("unusable plan: ", err))
+		return out
+	}
+	sessions := []*C16Plan{&p}
+	for i := range p.Others {
+		if i < 3 {
+			p.Others[i].Others = nil
+			sessions = append(sessions, &p.Others[i])
+		}
+	}
+	for _, sp := range sessions {
+		prepC16(sp)
 	}
 	leak, pv, stack := core.Bubble(t, trace, func(sim *core.Sim) {
-		pr := runPeerSession(sim, p.PeerPlan)
-		ch := p.Peer.Challenge
-		// the password must never be on the wire, whatever else happens
-		for _, a := range core.SortedKeys(p.Passwords) {
-			if pw := p.Passwords[a]; len(pw) >= 4 && bytes.Contains(pr.wire, []byte(pw)) {
-				sim.Violate(prop, "wire", "password-on-wire", "the password of %s appears in what the Session wrote", a)
+		prs := make([]*peerRun, len(sessions))
+		if len(sessions) == 1 && len(p.Yield) == 0 {
+			prs[0] = runPeerSession(sim, p.PeerPlan)
+		} else {
+			sim.Probe("concurrent-logins-in-one-process")
+			sim.EnableYields(p.Yield)
+			gos := make([]*core.GoResult, len(sessions))
+			for i, sp := range sessions {
+				i, sp := i, sp
+				d := time.Duration(0)
+				if i > 0 {
+					d = time.Duration(clampInt(core.TapeAt(p.StartUs, i-1, 0), 0, 60_000_000)) * time.Microsecond
+				}
+				gos[i] = core.Go(func() {
+					if d > 0 {
+						time.Sleep(sim.Reserve(sim.Now()+d) - sim.Now())
+					} else {
+						sim.Pause()
+					}
+					prs[i] = runPeerSession(sim, sp.PeerPlan)
+				})
 			}
-		}
-		if pr.res.panicVal != nil {
-			sim.Violate(prop, "panic", core.PanicClass(pr.res.panicVal)+"@"+core.RepoFrame(pr.res.stack), "Exchange panicked: %v\n%s", pr.res.panicVal, pr.res.stack)
-		}
-		switch {
-		case p.NoCallback:
-			sim.Probe("no-callback")
-			if pr.res.finished && pr.res.err == nil {
-				sim.Violate(prop, "handshake", "no-callback-but-success", "challenge received, no password callback registered, yet Exchange returned nil")
+			done := core.WaitAll(2*sessionBudget, gos...)
+			if n := sim.DisableYields(); n > 0 {
+				sim.ProbeN("pauses-inside-library-code", n)
 			}
-			if pr.peer.PR != "" {
-				sim.Violate(prop, "handshake", "no-callback-but-pr", "no password callback registered, yet ;PR %q was sent", pr.peer.PR)
-			}
-		case errFor[primary]:
-			sim.Probe("callback-error-primary")
-			// nothing prescribed beyond: no response derived from a password nobody supplied
-			if pr.peer.PR != "" && pr.peer.PR != b2f.SecureResponse(ch, "") {
-				// a response was sent although the callback failed; it can only be checked against the empty password
-				sim.Violate(prop, "response", "pr-after-callback-error", "callback failed for the primary address but ;PR %q was sent", pr.peer.PR)
-			}
-		default:
-			want := b2f.SecureResponse(ch, p.Passwords[primary])
-			if !pr.finished {
-				sim.Violate(prop, "handshake", "stalled", "session stalled (peer waiting for %q)", pr.peer.Waiting)
-			} else if pr.peer.PR != want {
-				sim.Violate(prop, "response", "wrong-pr", "challenge %q: ;PR %q, the algorithm gives %q", ch, pr.peer.PR, want)
-			} else {
-				out.NonTrivial = true
-			}
-			// ;FW entries
-			var wantFW []string
-			wantFW = append(wantFW, primary)
-			for _, a := range p.Aux {
-				addr := wireAddr(a)
-				if pw := p.Passwords[a]; pw != "" && !errFor[a] {
-					wantFW = append(wantFW, addr+"|"+b2f.SecureResponse(ch, pw))
-					sim.Probe("aux-with-password")
-				} else {
-					wantFW = append(wantFW, addr)
-					sim.Probe("aux-without-password")
+			for i, g := range gos {
+				if g.Panic != nil {
+					sim.Violate("HARNESS", "session-runner-panic", "c16", "session %d: %v\n%s", i, g.Panic, g.Stack)
 				}
 			}
-			if got := strings.Fields(strings.TrimPrefix(pr.peer.FWLine, ";FW:")); pr.finished && strings.Join(got, " ") != strings.Join(wantFW, " ") {
-				sim.Violate(prop, "response", "fw-entries", ";FW line %q, want entries %v", pr.peer.FWLine, wantFW)
-			}
-			if pr.finished && pr.res.err != nil {
-				sim.Violate(prop, "handshake", "exchange-error", "Exchange returned %v after a correct login", pr.res.err)
-			}
-			if strings.HasPrefix(want, "0") {
-				sim.Probe("response-with-leading-zero")
+			if !done {
+				sim.Violate(prop, "handshake", "stalled", "a concurrent login did not end")
 			}
 		}
-		out.Sample = map[string]any{"challenge": ch, "aux": p.Aux, "passwords_known_for": core.SortedKeys(p.Passwords), "err_for": p.ErrFor, "no_callback": p.NoCallback, "pr": pr.peer.PR, "fw": pr.peer.FWLine}
+		for i, sp := range sessions {
+			if prs[i] != nil {
+				judgeC16(sim, prop, sp, prs[i], &out)
+			}
+		}
+		out.Sample = map[string]any{"challenge": p.Peer.Challenge, "aux": p.Aux, "passwords_known_for": core.SortedKeys(p.Passwords), "err_for": p.ErrFor, "no_callback": p.NoCallback, "pr": prs[0].peer.PR, "fw": prs[0].peer.FWLine, "sessions": len(sessions)}
 		sim.FillOutcome(&out)
 	})
 	if pv != nil {
@@ -218,6 +255,83 @@ func execC16(t *testing.T, prop string, raw json.RawMessage, trace bool) core.Ou
 		out.Violate(prop, "harness", "goroutines-left-blocked", "goroutines were still blocked when the run ended")
 	}
 	return out
+}
+
+func clampInt(v, lo, hi int) int {
+	if v < lo {
+		return lo
+	}
+	if v > hi {
+		return hi
+	}
+	return v
+}
+
+// judgeC16 applies the oracle to one finished login.
+func judgeC16(sim *core.Sim, prop string, p *C16Plan, pr *peerRun, out *core.Outcome) {
+	primary := strings.ToUpper(p.Lib.Call)
+	errFor := map[string]bool{}
+	for _, a := range p.ErrFor {
+		errFor[a] = true
+	}
+	ch := p.Peer.Challenge
+	// the password must never be on the wire, whatever else happens
+	for _, a := range core.SortedKeys(p.Passwords) {
+		if pw := p.Passwords[a]; len(pw) >= 4 && bytes.Contains(pr.wire, []byte(pw)) {
+			sim.Violate(prop, "wire", "password-on-wire", "the password of %s appears in what the Session wrote", a)
+		}
+	}
+	if pr.res.panicVal != nil {
+		sim.Violate(prop, "panic", core.PanicClass(pr.res.panicVal)+"@"+core.RepoFrame(pr.res.stack), "Exchange panicked: %v\n%s", pr.res.panicVal, pr.res.stack)
+	}
+	switch {
+	case p.NoCallback:
+		sim.Probe("no-callback")
+		if pr.res.finished && pr.res.err == nil {
+			sim.Violate(prop, "handshake", "no-callback-but-success", "challenge received, no password callback registered, yet Exchange returned nil")
+		}
+		if pr.peer.PR != "" {
+			sim.Violate(prop, "handshake", "no-callback-but-pr", "no password callback registered, yet ;PR %q was sent", pr.peer.PR)
+		}
+	case errFor[primary]:
+		sim.Probe("callback-error-primary")
+		// nothing prescribed beyond: no response derived from a password nobody supplied
+		if pr.peer.PR != "" && pr.peer.PR != b2f.SecureResponse(ch, "") {
+			// a response was sent although the callback failed; it can only be checked against the empty password
+			sim.Violate(prop, "response", "pr-after-callback-error", "callback failed for the primary address but ;PR %q was sent", pr.peer.PR)
+		}
+	default:
+		want := b2f.SecureResponse(ch, p.Passwords[primary])
+		if !pr.finished {
+			sim.Violate(prop, "handshake", "stalled", "session stalled (peer waiting for %q)", pr.peer.Waiting)
+		} else if pr.peer.PR != want {
+			sim.Violate(prop, "response", "wrong-pr", "challenge %q: ;PR %q, the algorithm gives %q", ch, pr.peer.PR, want)
+		} else {
+			out.NonTrivial = true
+		}
+		// ;FW entries
+		var wantFW []string
+		wantFW = append(wantFW, primary)
+		for _, a := range p.Aux {
+			addr := wireAddr(a)
+			if pw := p.Passwords[a]; pw != "" && !errFor[a] {
+				wantFW = append(wantFW, addr+"|"+b2f.SecureResponse(ch, pw))
+				sim.Probe("aux-with-password")
+			} else {
+				wantFW = append(wantFW, addr)
+				sim.Probe("aux-without-password")
+			}
+		}
+		if got := strings.Fields(strings.TrimPrefix(pr.peer.FWLine, ";FW:")); pr.finished && strings.Join(got, " ") != strings.Join(wantFW, " ") {
+			sim.Violate(prop, "response", "fw-entries", ";FW line %q, want entries %v", pr.peer.FWLine, wantFW)
+		}
+		if pr.finished && pr.res.err != nil {
+			sim.Violate(prop, "handshake", "exchange-error", "Exchange returned %v after a correct login", pr.res.err)
+		}
+		if strings.HasPrefix(want, "0") {
+			sim.Probe("response-with-leading-zero")
+		}
+	}
 }
 
 // wireAddr is how an auxiliary address appears in ;FW: a call sign is upper
